@@ -224,6 +224,17 @@ theorem C06_concept_atoms (K : Ctx) (h : K.WF) {k : Nat} {c : LConcept} (hc : (m
   · rintro ⟨d, hd, hcv, hs⟩
     exact ⟨d.extent, S.extent_get hd, hcv, hs⟩
 
+/-- `lattice.infimum` is element 0, `lattice.supremum` element -1, `lattice.atoms` the upper neighbors of the
+infimum (`Lattice.infimum/supremum/atomsOf` in the model are these accessors); with `C06_infimum`,
+`C06_supremum`, `C06_atoms` they are the least concept, the greatest concept and the upper covers of the least -/
+theorem C06_accessors (K : Ctx) (h : K.WF) :
+    (∃ c, (mkLattice K).infimum = some c ∧ c.extent = K.doubleObj 0 ∧ ∀ d ∈ mkLattice K, c.extent ⊆ᵇ d.extent) ∧
+    (∃ c, (mkLattice K).supremum = some c ∧ c.extent = full K.n ∧ ∀ d ∈ mkLattice K, d.extent ⊆ᵇ c.extent) ∧
+    (∀ j, j ∈ (mkLattice K).atomsOf ↔ ∃ d, (mkLattice K)[j]? = some d ∧ covers K (K.doubleObj 0) d.extent) := by
+  obtain ⟨c, hc, he, _, _, hle⟩ := C06_infimum K h
+  obtain ⟨t, _, ht, hte, _, _, hge⟩ := C06_supremum K h
+  exact ⟨⟨c, hc, he, hle⟩, ⟨t, ht, hte, hge⟩, (C06_atoms K h).1⟩
+
 /-- every `upper_neighbors` tuple is in shortlex order (and consists of the upper covers, each once) -/
 theorem C06_upper_sorted (K : Ctx) (h : K.WF) {k : Nat} {c : LConcept} (hc : (mkLattice K)[k]? = some c) :
     c.upper.Pairwise (fun a b => shortlexLt K.n ((mkLattice K).extentAt a) ((mkLattice K).extentAt b)) ∧
